@@ -96,7 +96,7 @@ HDR = "{R : Type} [CommRing R] (n : Nat) (sig : Nat → R)"
 
 def main():
     repo = Path(sys.argv[sys.argv.index('--repo') + 1]) if '--repo' in sys.argv else Path('/repo')
-    out = ["import Proofs.Invol\nimport Proofs.Graded\nimport Proofs.Blade\n\n"
+    out = ["import Proofs.Invol\nimport Proofs.Graded\nimport Proofs.Blade\nimport Proofs.InvProps\n\n"
            "/-! GENERATED from the current source by translate/methods2lean.py — do not edit -/\n"
            "set_option linter.unusedVariables false\nnamespace GenMeth\nvariable {R : Type} [CommRing R] (n : Nat) (sig : Nat → R)\n\n"]
     status, thms = {}, []
@@ -160,6 +160,48 @@ def main():
     emit('meth_pick_inv', g_pick,
          f"theorem meth_pick_inv_eq {HDR} (dinv : R) (M : CMV n R) : GenMeth.pick_inv_product n sig M = gmul n sig (rev n M) M "
          f"∧ GenMeth.pick_inv_result n dinv M = dinv • rev n M := by\n  constructor <;> simp only [GenMeth.pick_inv_product, GenMeth.pick_inv_result]\n")
+
+    def g_pow():
+        f, b = method(tree, '__pow__')
+        src = [ast.unparse(x) for x in b]
+        # validation prelude: type test, integrality test, `other = int(round(other))`
+        if len(b) != 8 or not (isinstance(b[0], ast.If) and isinstance(b[0].body[0], ast.Raise) and isinstance(b[1], ast.If)
+                               and isinstance(b[1].body[0], ast.Raise)) or src[2] != 'other = int(round(other))':
+            raise Refuse("__pow__ prelude")
+        z = b[3]
+        if not (isinstance(z, ast.If) and ast.unparse(z.test) == 'other == 0' and not z.orelse
+                and [ast.unparse(x) for x in z.body] == ['return self._newMV(dtype=self.value.dtype) + 1']):
+            raise Refuse("__pow__: exponent 0 does not return the zero multivector + 1")
+        ng = b[4]
+        if not (isinstance(ng, ast.If) and ast.unparse(ng.test) == 'other < 0'
+                and [ast.unparse(x) for x in ng.body] == ['base = self.inv()', 'other = -other']
+                and [ast.unparse(x) for x in ng.orelse] == ['base = self']):
+            raise Refuse("__pow__: negative exponents do not switch to base = self.inv(), other = -other")
+        if src[5] != 'newMV = self._newMV(np.array(base.value))':
+            raise Refuse("__pow__: the accumulator does not start as a copy of base")
+        lp = b[6]
+        if not (isinstance(lp, ast.For) and ast.unparse(lp.iter) == 'range(1, other)'
+                and [ast.unparse(x) for x in lp.body] in (['newMV = newMV * base'], ['newMV *= base'])):
+            raise Refuse("__pow__: loop is not `for i in range(1, other): newMV = newMV * base`")
+        if src[7] != 'return newMV':
+            raise Refuse("__pow__: return")
+        return ("def mv_pow (M Minv : CMV n R) (k : Int) : CMV n R :=\n"
+                "  if k = 0 then (0 : CMV n R) + one n\n"
+                "  else\n"
+                "    let base := if k < 0 then Minv else M\n"
+                "    let other : Nat := if k < 0 then (-k).toNat else k.toNat\n"
+                "    (List.range' 1 (other - 1)).foldl (fun newMV _ => gmul n sig newMV base) base\n")
+    emit('meth_pow', g_pow,
+         f"theorem meth_pow_eq {HDR} (M Minv : Cl n sig) (k : Int) : (GenMeth.mv_pow n sig M Minv k : Cl n sig) = "
+         f"if k = 0 then 1 else if k < 0 then Minv ^ (-k).toNat else M ^ k.toNat := by\n"
+         f"  have hloop : ∀ (A : Cl n sig) (m : Nat), 1 ≤ m → (List.range' 1 (m - 1)).foldl (fun (acc : CMV n R) _ => gmul n sig acc A) A = A ^ m :=\n"
+         f"    fun A m hm => Cl.pow_loop' A m hm\n"
+         f"  unfold GenMeth.mv_pow\n"
+         f"  by_cases h0 : k = 0\n"
+         f"  · simp only [h0, if_true]; exact zero_add (1 : Cl n sig)\n"
+         f"  · by_cases hneg : k < 0\n"
+         f"    · simp only [h0, hneg, if_true, if_false]; exact hloop Minv _ (by omega)\n"
+         f"    · simp only [h0, hneg, if_false]; exact hloop M _ (by omega)\n")
 
     def g_project():
         f, b = method(tree, 'project')
